@@ -17,7 +17,8 @@ RULE = (
     'or started paused, with 1-2 `cylc trigger` commands at seeded main-loop '
     'interception points on a group of 1-5 task instances grown from a '
     'seeded root along graph edges (so that groups have internal '
-    'prerequisites), in any states the run has reached (unspawned, waiting, '
+    'prerequisites; in 40% of the triggers the root is picked at injection '
+    'time among the pooled tasks that are finished-but-incomplete or live), in any states the run has reached (unspawned, waiting, '
     'queued, held, live, finished, failed), with --flow unset, =new, =1 or '
     '=none; a hold or hold point precedes the trigger in some runs. Oracles: '
     '(once) after a trigger no member is submitted more than once in the '
@@ -42,7 +43,7 @@ TIERS = {
     'quick': {'n': 1200, 'budget_s': 420, 'chunk': 8},
     'thorough': {'n': 12000, 'budget_s': 3000, 'chunk': 20},
 }
-EXPECTED_PROBES = ['group_with_edge', 'member_live_at_trigger',
+EXPECTED_PROBES = ['group_rooted_at_finished_task', 'group_rooted_at_live_task', 'group_with_edge', 'member_live_at_trigger',
                    'member_finished_at_trigger', 'member_held_at_trigger',
                    'member_unspawned_at_trigger', 'trigger_while_paused',
                    'flow_new', 'in_group_order_checked', 'start_checked']
@@ -108,8 +109,12 @@ def gen_cmds(rng, prog, model, paused):
         if rng.random() < 0.15:
             group.add(rng.choice(valid))
         flow = rng.choice([[], [], [], ['new'], ['new'], ['1'], ['none']])
+        dyn = None
+        if rng.random() < 0.4:
+            dyn = [rng.random(), rng.random(),
+                   rng.choice(['finished', 'finished', 'live'])]
         cmds.append({'iter': it, 'slot': rng.randint(0, 1),
-                     'name': 'force_trigger_tasks',
+                     'name': 'force_trigger_tasks', 'dyn': dyn,
                      'group': sorted([list(g) for g in group]),
                      'kwargs': {'tasks': sorted(prog.iid(*g) for g in group),
                                 'flow': flow}})
@@ -160,8 +165,38 @@ class Driver(CommandDriver):
 
     def resolve(self, h, c):
         if c['name'] == 'force_trigger_tasks':
+            if c.get('dyn') is not None:
+                self.regroup(h, c)
             self.watch.on_trigger(h, c)
         return c['kwargs']
+
+    def regroup(self, h, c):
+        """Root the group at a task that is in the pool finished but
+        incomplete (or live), picked from the live state, plus some of its
+        graph children."""
+        res = self.watch.res
+        prog, model = res.prog, res.model
+        u1, u2, want = c['dyn']
+        cand = sorted(
+            i.identity for i in h.schd.pool.get_tasks()
+            if i.tdef.name in prog.tasks and i.state.status in (
+                ('succeeded', 'failed', 'submit-failed') if want == 'finished'
+                else ('submitted', 'running')))
+        if not cand:
+            return
+        ident = cand[int(u1 * len(cand)) % len(cand)]
+        cyc, name = ident.split('/')
+        root = (name, prog.ppoint(cyc))
+        kids = sorted(children_of(model, prog, *root) - {root})
+        group = {root}
+        if kids:
+            group.add(kids[int(u2 * len(kids)) % len(kids)])
+            if len(kids) > 1 and u2 > 0.5:
+                group.add(kids[int(u1 * len(kids)) % len(kids)])
+        res.sim.probe('group_rooted_at_' + want + '_task')
+        c['group'] = sorted([list(g) for g in group])
+        c['kwargs'] = dict(c['kwargs'])
+        c['kwargs']['tasks'] = sorted(prog.iid(*g) for g in group)
 
 
 class TriggerWatch(Monitor):
